@@ -59,11 +59,59 @@ def check_thresholds(ctx: Ctx):
     fv = view(m, fi)
     site = fi.qualname
     field = fi.params[0]
-    top, br = threshold_branches(fv)
-    if top is None:
-        ctx.undecided("THRESH", site, fi, "threshold dispatch not found")
-        return
     data = f"{field}.data"
+    from ..astutil import value_cases, mini_eval
+
+    # the mask comparison names the effective threshold; its value per requested rule is read off the paths
+    # that reach the comparison (truth table over the five kinds of request), whatever the dispatch is spelled like
+    masks = [c for c in fv.calls() if (fv.callee(c) or "").endswith("ScalarField") and len(c.args) >= 2]
+    masks = [c for c in masks if isinstance(fv.expand(c.args[1], c, stop=(field, "threshold"), allow_mutated=True, depth=2), ast.Compare)]
+    top = None
+    br = {}
+    tname = None
+    if len(masks) == 1:
+        cmpx = fv.expand(masks[0].args[1], masks[0], stop=(field, "threshold"), allow_mutated=True, depth=2)
+        cp = compare_parts(cmpx)
+        if cp is not None:
+            other = cp[2] if U(cp[0]) == data else cp[0]
+            if isinstance(other, ast.Name):
+                tname = other.id
+    if tname is None:
+        ctx.undecided("THRESH", site, fi, "threshold used by the mask comparison not found")
+        return
+    st_mask = stmt_index(fv).statement(masks[0])
+    top = st_mask
+    cases = value_cases(fv, st_mask, ast.Name(id=tname, ctx=ast.Load()), stop=(field,))
+    NUM = 0.37
+    undecidable = None
+    for req in ("extrema", "auto", "mean", "otsu", NUM):
+        vals = {}
+        for dec, val in cases:
+            ok = True
+            for ttxt, outcome in dec.items():
+                try:
+                    tnode = ast.parse(ttxt, mode="eval").body
+                except SyntaxError:
+                    continue
+                if "threshold" not in names_in(tnode):
+                    continue
+                try:
+                    if bool(mini_eval(tnode, {"threshold": req})) != outcome:
+                        ok = False
+                        break
+                except ValueError:
+                    undecidable = ttxt
+            if ok:
+                vals[U(val) if not isinstance(val, str) else val] = val
+        key = None if req is NUM else req
+        if len(vals) == 1:
+            v = list(vals.values())[0]
+            br[key] = v if not isinstance(v, str) else ast.parse(v, mode="eval").body
+        else:
+            br[key] = None if not vals else ("ambiguous", sorted(vals))
+    if undecidable is not None:
+        ctx.undecided("THRESH", site, (fi, top), f"dispatch test `{undecidable}` on the threshold request is not evaluable")
+        return
 
     def hook(cv, call, name):
         # method reducers of the data: X.min() / np.min(X)
@@ -79,49 +127,64 @@ def check_thresholds(ctx: Ctx):
     want = {"extrema": (Expr.atom("MIN") + Expr.atom("MAX")) * half, "auto": (Expr.atom("MIN") + Expr.atom("MAX")) * half, "mean": Expr.atom("MEAN")}
     desc = {"extrema": "(min + max)/2", "auto": "(min + max)/2", "mean": "mean"}
     for nm in ("extrema", "auto", "mean"):
-        s = br.get(nm)
+        v = br.get(nm)
         tag = f"{site}:threshold[{nm}]"
-        if s is None:
-            ctx.violate("THRESH", tag, (fi, top), f"rule '{nm}' does not assign the threshold")
+        if v is None or isinstance(v, tuple):
+            ctx.violate("THRESH", tag, (fi, top), f"rule '{nm}' does not determine one threshold value ({v})")
             continue
         try:
-            e = cv.conv(s.value)
-            ctx.decide(e == want[nm], "THRESH", tag, (fi, s), f"threshold = {desc[nm]} of the field values (transforms like the intensities under x ↦ a·x + b)",
+            e = cv.conv(v)
+            ctx.decide(e == want[nm], "THRESH", tag, (fi, v) if hasattr(v, "lineno") else (fi, top), f"threshold = {desc[nm]} of the field values (transforms like the intensities under x ↦ a·x + b)",
                        f"rule '{nm}' computes {e.show()} instead of {desc[nm]} of {data}: the threshold is not the documented one and does not follow affine changes of the intensities")
         except NotAlgebraic as exc:
-            ctx.undecided("THRESH", tag, (fi, s), f"{exc}: {U(s.value)[:60]}")
-    s = br.get("otsu")
-    ok = s is not None and isinstance(s.value, ast.Call) and (fv.callee(s.value) or "").endswith("threshold_otsu") and [U(a) for a in s.value.args] == [data] and not s.value.keywords
-    ctx.decide(ok, "THRESH", f"{site}:threshold[otsu]", (fi, s) if s is not None else (fi, top), "threshold = threshold_otsu(field values) with the default 256 bins",
-               f"rule 'otsu' is `{U(s.value) if s is not None else None}`, not threshold_otsu({data}) with default bins")
-    s = br.get(None)
-    ok = s is not None and U(s.value) == "float(threshold)"
-    ctx.decide(ok, "THRESH", f"{site}:threshold[numeric]", (fi, s) if s is not None else (fi, top), "a numeric threshold is used as given",
-               f"numeric thresholds are transformed: `{U(s.value) if s is not None else None}`")
+            ctx.undecided("THRESH", tag, (fi, top), f"{exc}: {U(v)[:60]}")
+    v = br.get("otsu")
+    ok = v is not None and not isinstance(v, tuple) and isinstance(v, ast.Call) and (m.callee(fv.mod, v) or U(v.func)).endswith("threshold_otsu") and [U(a) for a in v.args] == [data] and not v.keywords
+    ctx.decide(ok, "THRESH", f"{site}:threshold[otsu]", (fi, top), "threshold = threshold_otsu(field values) with the default 256 bins",
+               f"rule 'otsu' is `{U(v) if v is not None and not isinstance(v, tuple) else v}`, not threshold_otsu({data}) with default bins")
+    v = br.get(None)
+    ok = v is not None and not isinstance(v, tuple) and U(v) == "float(threshold)"
+    ctx.decide(ok, "THRESH", f"{site}:threshold[numeric]", (fi, top), "a numeric threshold is used as given",
+               f"numeric thresholds are transformed: `{U(v) if v is not None and not isinstance(v, tuple) else v}`")
     # ---- GUARDSHAPE: mask
-    masks = [c for c in fv.calls() if (fv.callee(c) or "").endswith("ScalarField") and len(c.args) >= 2 and isinstance(c.args[1], ast.Compare)]
     ok = False
     if len(masks) == 1:
         c = masks[0]
-        cp = compare_parts(c.args[1])
+        cp = compare_parts(cmpx)
         dt = kwarg(c, "dtype")
-        ok = cp is not None and ((U(cp[0]) == data and isinstance(cp[1], ast.Gt) and U(cp[2]) == "threshold") or (U(cp[2]) == data and isinstance(cp[1], ast.Lt) and U(cp[0]) == "threshold"))
-        ok = ok and U(c.args[0]) == f"{field}.grid" and dt is not None and U(dt) == "bool"
-        st = stmt_index(fv).statement(c)
-        nm = U(st.targets[0]) if isinstance(st, ast.Assign) else None
+        ok = cp is not None and ((U(cp[0]) == data and isinstance(cp[1], ast.Gt) and U(cp[2]) == tname) or (U(cp[2]) == data and isinstance(cp[1], ast.Lt) and U(cp[0]) == tname))
+        ok = ok and U(fv.expand(c.args[0], c, stop=(field,))) == f"{field}.grid" and dt is not None and U(dt) == "bool"
         loc = [x for x in fv.calls() if (fv.callee(x) or "").endswith("locate_droplets_in_mask")]
-        ok = ok and len(loc) == 1 and [U(a) for a in loc[0].args] == [nm] and fv.dominates(top, c)
+        ok = ok and len(loc) == 1 and len(loc[0].args) == 1
+        if ok:
+            a0 = fv.expand(loc[0].args[0], loc[0], stop=(field, tname), allow_mutated=True, depth=3)
+            ok = a0 is c or U(a0) == U(c)
     ctx.decide(ok, "GUARDSHAPE", f"{site}:mask", (fi, masks[0]) if masks else fi,
                "candidates = locate_droplets_in_mask(ScalarField(grid, data > threshold, dtype=bool)): a cell belongs to a droplet iff it strictly exceeds the threshold",
                f"the binary image is `{U(masks[0])[:80] if masks else 'not built'}`; it must be {data} > threshold (strict) on {field}.grid, after the threshold was determined")
     # ---- SLICE: other reads of the field's values on the unrefined path
     si = stmt_index(fv)
     allowed = set()
-    for s in br.values():
-        if s is not None:
-            allowed |= {id(x) for x in ast.walk(s)}
+    feed = {tname}
+    changed = True
+    while changed:  # statements defining the threshold, transitively through temporaries
+        changed = False
+        for s_ in fv.statements():
+            if isinstance(s_, (ast.Assign, ast.AnnAssign)) and s_.value is not None:
+                t_ = s_.targets[0] if isinstance(s_, ast.Assign) else s_.target
+                if isinstance(t_, ast.Name) and t_.id in feed:
+                    allowed |= {id(x) for x in ast.walk(s_)}
+                    for nm_ in names_in(s_.value):
+                        if nm_ not in feed and nm_ != field and any(isinstance(q, (ast.Assign, ast.AnnAssign)) and isinstance((q.targets[0] if isinstance(q, ast.Assign) else q.target), ast.Name)
+                                                                    and (q.targets[0] if isinstance(q, ast.Assign) else q.target).id == nm_ for q in fv.statements()):
+                            feed.add(nm_)
+                            changed = True
     if masks:
         allowed |= {id(x) for x in ast.walk(masks[0])}
+        # temporaries between the comparison and the ScalarField call
+        for s_ in fv.statements():
+            if isinstance(s_, ast.Assign) and isinstance(s_.targets[0], ast.Name) and s_.targets[0].id in names_in(masks[0]) and s_.targets[0].id != field:
+                allowed |= {id(x) for x in ast.walk(s_)}
     bad = []
     for n in fv.cfg.nodes:
         for root in fv._roots(n):
@@ -303,12 +366,20 @@ def check_otsu(ctx: Ctx):
     centers = U(bc[0].targets[0]) if bc else None
     ctx.decide(okc, "THRESH", site + ":centres", (fi, bc[0]) if bc else fi, "bin centres are the midpoints of consecutive edges (affine points)", "bin centres are not (edges[1:] + edges[:-1])/2")
     rets = [n.stmt for n in fv.return_nodes()]
-    am = [s for s in order if isinstance(s.value, ast.Call) and (fv.callee(s.value) or U(s.value.func)).split(".")[-1] == "argmax"]
     okr = False
-    if len(rets) == 1 and len(am) == 1:
-        var = U(am[0].value.args[0])
-        idx = U(am[0].targets[0])
-        okr = isinstance(env.get(var), Ori) and env[var].cum == "mixed" and U(rets[0].value) == f"float({centers}[{idx}])"
+    if len(rets) == 1 and rets[0].value is not None:
+        r = fv.expand(rets[0].value, rets[0], stop=tuple(env) + ((centers,) if centers else ()), allow_mutated=True)
+        if isinstance(r, ast.Call) and U(r.func) == "float" and len(r.args) == 1:
+            r = r.args[0]
+        if isinstance(r, ast.Subscript) and U(r.value) == centers and isinstance(r.slice, ast.Call):
+            c = r.slice
+            nm = (fv.callee(c) or U(c.func)).split(".")[-1]
+            var = None
+            if nm == "argmax" and isinstance(c.func, ast.Attribute) and isinstance(c.func.value, ast.Name) and c.func.value.id in env and not c.args and not c.keywords:
+                var = c.func.value.id  # V.argmax()
+            elif nm == "argmax" and len(c.args) == 1 and isinstance(c.args[0], ast.Name) and not c.keywords:
+                var = c.args[0].id  # np.argmax(V)
+            okr = var is not None and isinstance(env.get(var), Ori) and env[var].cum == "mixed"
     ctx.decide(okr, "THRESH", site + ":result", (fi, rets[0]) if rets else fi, "returns the bin centre at the arg-max of the between-class variance",
                "the result is not the bin centre at the arg-max of the between-class variance array")
 
